@@ -18,6 +18,7 @@ import (
 	"fmt"
 	"math/rand"
 	"os"
+	"sort"
 	"strconv"
 	"strings"
 	"testing"
@@ -197,11 +198,219 @@ func v25toks(e ast.Expr, ids *vids) (s string, ok bool) {
 	return "", false
 }
 
+// ---------------------------------------------------------------------------------------------
+// query level: `table where <terms>` through the real Where (index selection, index filters on
+// the key, raw evaluation, InRange folding) against the language evaluation of the same
+// expression on every row of the table
+
+type v25term struct {
+	e    *vexpr
+	kind string
+}
+
+func v25cmpVals(x, y Value) int { return x.Compare(y) }
+
+// v25terms builds 1-4 conjuncts over table t; ix is one of its keys/indexes (may be empty)
+func (g *vdb) v25terms(t *vtable, ix []string) []v25term {
+	r := g.r
+	val := func(ci int) Value { return t.rows[r.Intn(len(t.rows))][ci] }
+	nonEmpty := func(ci int) Value {
+		for range 4 {
+			if v := val(ci); v != EmptyStr {
+				return v
+			}
+		}
+		if t.cols[ci].typ == vtInt {
+			return IntVal(g.randInt())
+		}
+		return SuStr("a")
+	}
+	pickCol := func(in bool) int { // a column inside / outside the index
+		var cs []int
+		for i, c := range t.cols {
+			if vhasStr(ix, c.name) == in {
+				cs = append(cs, i)
+			}
+		}
+		if len(cs) == 0 {
+			return r.Intn(len(t.cols))
+		}
+		return cs[r.Intn(len(cs))]
+	}
+	var terms []v25term
+	add := func(kind string, es ...*vexpr) {
+		for _, e := range es {
+			terms = append(terms, v25term{e, kind})
+		}
+	}
+	nt := 1 + r.Intn(3)
+	for len(terms) < nt {
+		switch k := r.Intn(10); {
+		case k < 3: // point / in-list on an index column (no '' in lists: known KF-C22-3)
+			ci := pickCol(true)
+			if r.Intn(2) == 0 {
+				add("point", &vexpr{op: "is", kids: []*vexpr{vcolx(t.cols[ci].name), vconst(val(ci))}})
+			} else {
+				vals := []Value{nonEmpty(ci)}
+				for range 1 + r.Intn(2) {
+					v := nonEmpty(ci)
+					dup := false
+					for _, o := range vals {
+						if o.Equal(v) {
+							dup = true
+						}
+					}
+					if !dup {
+						vals = append(vals, v)
+					}
+				}
+				add("in", &vexpr{op: "in", kids: []*vexpr{vcolx(t.cols[ci].name)}, vals: vals})
+			}
+		case k < 6: // a pair of bounds on one column, rows exactly on both bounds, all strictness combinations
+			ci := pickCol(r.Intn(2) == 0)
+			lo, hi := val(ci), val(ci)
+			if v25cmpVals(lo, hi) > 0 {
+				lo, hi = hi, lo
+			}
+			lower := &vexpr{op: []string{"gt", "ge"}[r.Intn(2)], kids: []*vexpr{vcolx(t.cols[ci].name), vconst(lo)}}
+			upper := &vexpr{op: []string{"lt", "le"}[r.Intn(2)], kids: []*vexpr{vcolx(t.cols[ci].name), vconst(hi)}}
+			if r.Intn(4) == 0 {
+				lower, upper = upper, lower
+			}
+			add("range-"+lower.op+"-"+upper.op, lower, upper)
+		case k < 8: // a term that cannot be evaluated on encodings
+			ci := pickCol(r.Intn(2) == 0)
+			if t.cols[ci].typ != vtInt {
+				continue
+			}
+			n, _ := val(ci).ToInt()
+			e := &vexpr{op: "add", kids: []*vexpr{vcolx(t.cols[ci].name), vconst(IntVal(0))}}
+			if r.Intn(2) == 0 {
+				e = &vexpr{op: "mul", kids: []*vexpr{vcolx(t.cols[ci].name), vconst(IntVal(1))}}
+			}
+			add("nonraw", &vexpr{op: []string{"is", "ge", "le", "ne"}[r.Intn(4)], kids: []*vexpr{e, vconst(IntVal(n))}})
+		default: // a term that mixes an index column with a column outside the index
+			c1, c2 := pickCol(true), pickCol(false)
+			if c1 == c2 || t.cols[c1].typ != t.cols[c2].typ {
+				continue
+			}
+			if r.Intn(2) == 0 {
+				c1, c2 = c2, c1
+			}
+			add("mixed", &vexpr{op: []string{"is", "ne", "lt", "le", "gt", "ge"}[r.Intn(6)],
+				kids: []*vexpr{vcolx(t.cols[c1].name), vcolx(t.cols[c2].name)}})
+		}
+	}
+	// keep the two halves of a range adjacent most of the time, otherwise any order
+	if r.Intn(3) == 0 {
+		r.Shuffle(len(terms), func(i, j int) { terms[i], terms[j] = terms[j], terms[i] })
+	} else if len(terms) > 1 && r.Intn(2) == 0 {
+		// rotate: non-raw / mixed terms in front of the index terms
+		k := r.Intn(len(terms))
+		terms = append(terms[k:], terms[:k]...)
+	}
+	return terms
+}
+
+func vC25Query(tr *lib.Trace, r *rand.Rand, n int) {
+	th := &Thread{}
+	done := 0
+	for done < n {
+		g := newVdb(r)
+		g.emitTables(tr)
+		for i := 0; i < 10 && done < n; i++ {
+			t := g.tables[r.Intn(len(g.tables))]
+			if len(t.rows) == 0 {
+				continue
+			}
+			done++
+			var ix []string
+			all := append(append([][]string{}, t.keys...), t.indexes...)
+			if c := all[r.Intn(len(all))]; len(c) > 0 {
+				ix = c[:1+r.Intn(len(c))]
+			}
+			terms := g.v25terms(t, ix)
+			e := terms[len(terms)-1].e
+			kinds := map[string]bool{terms[len(terms)-1].kind: true}
+			for j := len(terms) - 2; j >= 0; j-- {
+				e = &vexpr{op: "and", kids: []*vexpr{terms[j].e, e}}
+				kinds[terms[j].kind] = true
+			}
+			var ks []string
+			for k := range kinds {
+				ks = append(ks, k)
+				tr.Count("term=" + k)
+			}
+			sort.Strings(ks)
+			tn := &vnode{op: "table", tbl: t, cols: append([]vcol{}, t.cols...)}
+			q := &vnode{op: "where", kids: []*vnode{tn}, cols: tn.cols, expr: e}
+			if !g.valid(q) {
+				tr.Count("query-rejected")
+				continue
+			}
+			// the language on every row
+			names := tn.colNames()
+			hdr := NewHeader([][]string{names}, names)
+			cols := append([]string{}, names...)
+			sort.Slice(cols, func(a, b int) bool { return g.ids.id(cols[a]) < g.ids.id(cols[b]) })
+			var want []string
+			lerr := ""
+			for _, vals := range t.rows {
+				var rb RecordBuilder
+				for _, v := range vals {
+					rb.Add(v.(Packable))
+				}
+				row := Row{DbRec{Record: rb.Build()}}
+				var v Value
+				if msg := lib.Catch(func() {
+					x := v25parse(e.src())
+					ast.Unraw(x)
+					v = x.Eval(&ast.RowContext{Th: th, Hdr: hdr, Row: row})
+				}); msg != "" {
+					lerr = msg
+					break
+				}
+				if v == True {
+					want = append(want, vrowText(hdr, row, cols, th, nil))
+				}
+			}
+			if lerr != "" {
+				tr.Count("language-error")
+				continue
+			}
+			sort.Strings(want)
+			wantS := g.ids.list(cols) + " " + strconv.Itoa(len(want)) + " " + strings.Join(want, ";")
+			first := true
+			for _, st := range vstrategies {
+				res, plan := g.execute(q.src(), st, r.Uint64())
+				if res.err == "skip" {
+					continue
+				}
+				got := res.show(&g.ids)
+				if first {
+					first = false
+					tr.Q("eval "+q.toks(&g.ids), got)
+					tr.Sample(q.src() + "  =>  " + vtrunc(plan, 160))
+				}
+				if got != wantS {
+					tr.Fail("where-vs-language:"+strings.Join(ks, "+"),
+						"db: "+g.describe()+" query: "+q.src()+" | index considered "+fmt.Sprint(ix)+" | strategy "+st.name+
+							" executes: "+vtrunc(plan, 300)+" | rows on which the language evaluates the expression to true: "+
+							vtrunc(wantS, 300)+" | executed: "+vtrunc(got, 300)+" | columns "+strings.Join(g.ids.names, ","))
+					break
+				}
+			}
+		}
+		g.close()
+	}
+}
+
 func TestVerifC25(t *testing.T) {
 	tr := lib.Open()
 	defer tr.Close()
 	r := lib.Rand()
 	n := lib.N(3000)
+	defer vC25Query(tr, r, max(200, n/5))
 	reportNeg := os.Getenv("VERIF_NEGPREFIX") == "1"
 	g := &vdb{r: r}
 	ids := &g.ids
@@ -346,5 +555,4 @@ func TestVerifC25(t *testing.T) {
 			}
 		}
 	}
-	_ = rand.Int
 }
